@@ -15,6 +15,7 @@ package main
 
 import (
 	"fmt"
+	"sort"
 	"strings"
 )
 
@@ -128,5 +129,82 @@ func c16Augment(r *Rng, tf c04Files, pkgs []string, density int, feats map[strin
 			}
 		}
 		feat(fmt.Sprintf("c16.common-foreign-users-%d", n))
+	}
+}
+
+// c16Terminators: line terminators as a dimension of the generated trees (round 5).
+// For 1-3 files of the kinds that have an inserting fix (CVS id, "empty line expected",
+// SUBDIR, "# used by", distinfo hashes, PLIST) the terminators are rewritten:
+//
+//	crlf     every line ends in \r\n
+//	mixed    every second line ends in \r\n
+//	crlf-top only the first two lines end in \r\n
+//	no-eol   the last line is not terminated
+//
+// An inserted line ends in \n whatever its neighbours end in (autofix.go), and is
+// recognised again after re-loading because Line.Text strips just that \n.
+func c16Terminators(r *Rng, tf c04Files, feats map[string]int) {
+	var cands []string
+	for k := range tf {
+		switch c16FileKind(k) {
+		case "Makefile", "category Makefile", "Makefile.common", "PLIST", "distinfo", "patch", "buildlink3.mk", "*.mk", "options.mk":
+			if strings.HasPrefix(k, "cat/") {
+				cands = append(cands, k)
+			}
+		}
+	}
+	sort.Strings(cands)
+	if len(cands) == 0 {
+		return
+	}
+	for n := 1 + r.Intn(3); n > 0; n-- {
+		k := Pick(r, cands)
+		content := tf[k]
+		if strings.Contains(content, "\r") || content == "" {
+			continue
+		}
+		ls := strings.SplitAfter(content, "\n")
+		mode := Pick(r, []string{"crlf", "crlf", "mixed", "crlf-top", "no-eol"})
+		for i, l := range ls {
+			if !strings.HasSuffix(l, "\n") {
+				continue
+			}
+			if mode == "crlf" || mode == "mixed" && i%2 == 0 || mode == "crlf-top" && i < 2 {
+				ls[i] = strings.TrimSuffix(l, "\n") + "\r\n"
+			}
+		}
+		content = strings.Join(ls, "")
+		if mode == "no-eol" {
+			content = strings.TrimSuffix(content, "\n")
+		}
+		tf[k] = content
+		feats["c16.eol-"+mode+" "+c16FileKind(k)]++
+		feats["c16.eol-"+mode]++
+	}
+}
+
+// c16MetaDirs: a further package directory whose name contains a character that means
+// something to make(1) ('#' starts a comment, '$' an expression, ':' a modifier or a
+// dependency, '\\' an escape, ' ' separates words).  It is not listed in the category
+// Makefile, so "Package _ must be listed here." inserts a SUBDIR line for it, which
+// must be recognised again by the next run.
+var c16MetaDirNames = []string{"p#hash", "p#a#b", "p$dollar", "p:colon", "p\\back", "p space", "p${X}"}
+
+func c16MetaDirs(r *Rng, tf c04Files, pkgs []string, feats map[string]int) {
+	if len(pkgs) == 0 {
+		return
+	}
+	src := pkgs[0]
+	name := Pick(r, c16MetaDirNames)
+	dst := "cat/" + name
+	n := 0
+	for _, f := range []string{"Makefile", "DESCR", "PLIST", "distinfo"} {
+		if c, ok := tf[src+"/"+f]; ok {
+			tf[dst+"/"+f] = c
+			n++
+		}
+	}
+	if n > 0 {
+		feats["c16.metadir "+name]++
 	}
 }
